@@ -250,7 +250,7 @@ class RustSource:
 
 DERIVE_DROP = {'Trace', 'Acyclic', 'Typed', 'IntoUntyped', 'Error', 'FromUntyped'}
 ATTR_DROP = re.compile(r'^[ \t]*#\[(trace|builtin|error|typed|from|source)\b.*?\]\s*?\n', re.M)
-ATTR_DROP_INLINE = re.compile(r'#\[(trace|typed|from|source)\([^\]]*\)\]\s*')
+ATTR_DROP_INLINE = re.compile(r'#\[(?:(?:trace|typed|from|source)\([^\]]*\)|default(?:\([^\]]*\))?)\]\s*')
 
 
 def default_edits(txt):
@@ -296,7 +296,7 @@ def expand(template_text, repo, record, base_dir=None, depth=0):
             for kv in m.group(2).split():
                 k, v = kv.split('=', 1)
                 t = t.replace('@' + k + '@', v)
-            return expand(t, repo, record, base_dir, depth + 1)
+            return expand(t, repo, record, os.path.dirname(path), depth + 1)
         template_text = INCLUDE.sub(inc, template_text)
 
     def repl(m):
